@@ -36,6 +36,17 @@ type zzEnv struct {
 }
 
 // zzParams draws governance parameters accepted by the module's own validators.
+// zzRatioGrid: when set, the two percentage parameters are case-split over a grid instead of being
+// symbolic (keeps the share arithmetic linear for the solvers; the general arithmetic is a separate kernel).
+var zzRatioGrid []int64
+
+func zzPercent(tag string) int64 {
+	if zzRatioGrid == nil {
+		return zzverif.NondetRange(tag, 0, 100)
+	}
+	return zzRatioGrid[zzverif.NondetLen(tag+".grid", 0, len(zzRatioGrid)-1)]
+}
+
 func zzParams() types.Params {
 	p := types.Params{
 		DepositAccount:         "jkl1arsaayyj5tash86mwqudmcs2fd5jt5zgc3sexc",
@@ -49,8 +60,8 @@ func zzParams() types.Params {
 		AttestMinToPass:        zzverif.NondetRange("param.AttestMinToPass", 0, 1<<20),
 		CollateralPrice:        zzverif.NondetRange("param.CollateralPrice", 0, 1<<62),
 		CheckWindow:            zzverif.NondetRange("param.CheckWindow", 0, 1<<40),
-		ReferralCommission:     zzverif.NondetRange("param.ReferralCommission", 0, 100),
-		PolRatio:               zzverif.NondetRange("param.PolRatio", 0, 100),
+		ReferralCommission:     zzPercent("param.ReferralCommission"),
+		PolRatio:               zzPercent("param.PolRatio"),
 	}
 	zzverif.Assume(zzverif.ValidateParamSet(&p) == nil) // what Subspace.SetParamSet enforces
 	return p
